@@ -39,6 +39,14 @@ class Sym:
             self.assume.append(in_set(c, first if i == 0 else rest))
         return tuple(s)
 
+    def arch_leaf(self, n, first, rest):
+        """a symbolic architecture name that is a plain cpu name: the words any and all denote something else"""
+        s = self.leaf(n, first, rest)
+        if n == 3:
+            for w in (b'any', b'all'):
+                self.assume.append(z3.Not(z3.And(*[tobv(c, 8) == w[i] for i, c in enumerate(s)])))
+        return s
+
     def ws(self, n):
         self.n += 1
         s = symstr('w%d' % self.n, n)
@@ -171,7 +179,7 @@ def mk_alt(sym, spec, L, hi=None):
     alt = dict(kind='pkg', name=sym.leaf(spec.get('n', L), *alph('name', LOW, NAMEC)), clauses=[])
     q = spec.get('qual')
     if q == 'sym':
-        alt['qual'] = sym.leaf(L, *alph('qual', LOW, LOW))
+        alt['qual'] = sym.arch_leaf(L, *alph('qual', LOW, LOW))
     elif q:
         alt['qual'] = q
     for c in spec.get('order', ()):
@@ -180,7 +188,7 @@ def mk_alt(sym, spec, L, hi=None):
             alt['clauses'].append(('ver', op, tuple(spec['ver_text']) if spec.get('ver_text') else sym.leaf(L, *alph('ver', DIGITS, VERC))))
         elif c == 'arch':
             names = spec['archs']
-            alt['clauses'].append(('arch', spec.get('neg', False), [sym.leaf(L, *alph('arch', LOW, LOW)) if n == 'sym' else n for n in names]))
+            alt['clauses'].append(('arch', spec.get('neg', False), [sym.arch_leaf(L, *alph('arch', LOW, LOW)) if n == 'sym' else n for n in names]))
         else:
             ents = spec['profs'][int(c[1:])]
             alt['clauses'].append(('prof', [(neg, sym.leaf(L, *alph('prof', LOW, LOW + b'.+-'))) for neg in ents]))
